@@ -47,6 +47,20 @@ namespace igris
             return !_comp(a, b) && !_comp(b, a);
         }
 
+        // where a new key goes so that the storage stays ordered by key:
+        // std::map iterates in key order (and operator== compares the
+        // storages), so every insertion path uses this position
+        iterator ordered_pos(const Key &key)
+        {
+            return std::upper_bound(
+                storage.begin(),
+                (iterator)storage.end(),
+                key,
+                [this](const Key &k, const value_type &p) {
+                    return _comp(k, p.first);
+                });
+        }
+
     public:
         flat_map() = default;
         flat_map(const flat_map &) = default;
@@ -61,7 +75,7 @@ namespace igris
             for (const auto &v : init)
             {
                 if (find(v.first) == storage.end())
-                    storage.push_back(v);
+                    storage.insert(ordered_pos(v.first), v);
             }
         }
 
@@ -165,10 +179,7 @@ namespace igris
                                    });
 
             if (it == storage.end())
-            {
-                storage.push_back(value_type(key, T()));
-                return storage.back().second;
-            }
+                it = storage.insert(ordered_pos(key), value_type(key, T()));
 
             return it->second;
         }
@@ -261,8 +272,10 @@ namespace igris
             {
                 return std::make_pair(it, false);
             }
-            storage.push_back(std::pair(key, T(std::forward<Args>(args)...)));
-            return std::make_pair(storage.end() - 1, true);
+            it = storage.insert(
+                ordered_pos(key),
+                value_type(key, T(std::forward<Args>(args)...)));
+            return std::make_pair(it, true);
         }
 
         iterator insert(const value_type &value)
@@ -276,15 +289,7 @@ namespace igris
             {
                 return it;
             }
-            return storage.insert(
-                std::upper_bound(storage.begin(),
-                                 (iterator)storage.end(),
-                                 value,
-                                 [this](const value_type &a,
-                                        const value_type &b) {
-                                     return _comp(a.first, b.first);
-                                 }),
-                value);
+            return storage.insert(ordered_pos(value.first), value);
         }
     };
 }
